@@ -1,5 +1,5 @@
 (* PropC03.v — property C03: parameter-based retrace. *)
-From PG Require Import Base Mapping Spec Mapper CacheWriter CacheReader MapperProofs Domain WriterInv CacheProofs.
+From PG Require Import Base Mapping Spec Mapper CacheWriter CacheReader MapperProofs Domain WriterInv CacheProofs Roundtrip FileLevel.
 
 Theorem C03_mapper : forall rs c m p, wf_class_names rs = true ->
   m_remap_frame_params (build true rs) c m p = Sparams rs c m p.
@@ -24,6 +24,13 @@ Theorem C03_spec_properties : forall rs c m p,
   (block_of rs c = None -> Sparams rs c m p = []) /\
   (forall rs', block_of rs c = block_of rs' c -> Sparams rs c m p = Sparams rs' c m p).
 Proof. exact sparams_props. Qed.
+
+(* whole files: the answer depends only on the grammar lines of the file, not on the terminator style
+   (LF / CR / CRLF, mixed) nor on blank or unparseable lines between them *)
+Theorem C03_file_independent : forall f1 f2 c m p,
+  wf_file f1 = true -> wf_file f2 = true -> file_lines f1 = file_lines f2 ->
+  Sparams (recs (print_file f1)) c m p = Sparams (recs (print_file f2)) c m p.
+Proof. intros f1 f2 c m p H1 H2 H. exact (Sparams_file_independent f1 f2 H1 H2 H c m p). Qed.
 
 Check C03_mapper : forall rs c m p, wf_class_names rs = true ->
   m_remap_frame_params (build true rs) c m p = Sparams rs c m p.
